@@ -17,6 +17,7 @@ import json
 import random
 
 import vlib
+import vmabortlib
 
 FINITE = ["", "a := 1", "a := [1, 2]", "a := 1; b := a + 2", "a := {x: 1}; b := a.x"]
 ERROR = ['a := 1 + "x"', "a := 1 / 0", "a := 1; a()", "a := 5; b := [a][0].z.y", 'f := func(x) { return x.y.z }; f(1)']
@@ -162,6 +163,24 @@ def run(ck):
         tag = "%s/%s/%s" % (cs["shape"], cs["mode"], cs["cancel"])
         ck.violation("trace:" + tag, "recorded hook events of a real execution are not a behaviour of RunContext.tla (%s, %r)" % (tag, cs["src"]),
                      {"case": cs, "result": res[i]})
+    # ---- several calls on one object: a waiter's context is cancelled while another run holds the object
+    cc = []
+    for waiters in (1, 2, 3):
+        for holder_ms, cancel_ms, delay in ((500, 150, 50), (500, 0, 50), (300, 600, 20), (400, 1, 100)):
+            cc.append({"id": len(cc) + 1, "waiters": waiters, "holder_ms": holder_ms, "cancel_ms": cancel_ms, "waiter_delay": delay})
+    cr = vlib.run_cases(ck, "c07contend", cc, nproc=4, timeout=900)
+    for c in cc:
+        o = cr[c["id"]]
+        ck.evaluations += 1
+        if o.get("error"):
+            raise vlib.Infra("c07contend driver: %s" % o["error"])
+        if o.get("hang") or o.get("died") or o.get("panic") or not o.get("ok"):
+            ck.violation("contended-cancel", "holder %d ms, %d waiter(s) cancelled after %d ms: %s" % (c["holder_ms"], c["waiters"], c["cancel_ms"], o.get("what") or str(o)[:300]),
+                         {"contend": c, "real": o})
+        else:
+            ck.traces += 1
+    # ---- Abort on a VM object, then the same object run again
+    vmabortlib.judge(ck)
     ck.extra["gated_scenarios"] = ngated
     ck.extra["free_running"] = nfree
     ck.extra["traces_checked_by_tlc"] = len(traces)
